@@ -130,9 +130,41 @@ def ev(e, env):
             recv = ev(e.func.value, env)
             if isinstance(recv, str):
                 return recv.format(*[ev(a, env) for a in e.args])
+        # a call to another pure function the caller made known (e.g. a helper of the same module)
+        fn = env.get("__functions__", {}).get(e.func.id) if isinstance(e.func, ast.Name) else None
+        if fn is not None and env.get("__depth__", 0) < 4:
+            params = [a.arg for a in fn.args.posonlyargs + fn.args.args + fn.args.kwonlyargs]
+            dflt = dict(zip([a.arg for a in fn.args.args][len(fn.args.args) - len(fn.args.defaults):], fn.args.defaults))
+            actual = dict(zip(params, [ev(a, env) for a in e.args]))
+            for k in e.keywords:
+                actual[k.arg] = ev(k.value, env)
+            for p in params:
+                if p not in actual:
+                    if p not in dflt:
+                        raise Unsupported("missing argument %s" % p)
+                    actual[p] = ev(dflt[p], env)
+            env2 = dict(actual)
+            env2["__functions__"] = env.get("__functions__", {})
+            env2["__depth__"] = env.get("__depth__", 0) + 1
+            r = run_block(fn.body, env2)
+            return r[1] if r is not None else None
         raise Unsupported("call " + U(e)[:60])
     if isinstance(e, ast.JoinedStr):
-        return "<f-string>"
+        out = []
+        for part in e.values:
+            if isinstance(part, ast.Constant):
+                out.append(str(part.value))
+            elif isinstance(part, ast.FormattedValue):
+                v = ev(part.value, env)
+                if part.conversion == ord("r"):
+                    v = repr(v)
+                elif part.conversion == ord("s"):
+                    v = str(v)
+                spec = ev(part.format_spec, env) if part.format_spec is not None else ""
+                out.append(format(v, spec))
+            else:
+                raise Unsupported("f-string part")
+        return "".join(out)
     if isinstance(e, (ast.ListComp, ast.GeneratorExp, ast.SetComp)) and len(e.generators) == 1 and not e.generators[0].is_async:
         g = e.generators[0]
         if not isinstance(g.target, ast.Name):
@@ -178,12 +210,14 @@ def run_block(stmts, env):
     return None
 
 
-def call(func_node, *args):
-    """Fold `func_node(*args)`: ('return', value) / ('raise', exception name). Unsupported propagates."""
+def call(func_node, *args, functions=None):
+    """Fold `func_node(*args)`: ('return', value) / ('raise', exception name). Unsupported propagates.
+    `functions`: name -> FunctionDef of other pure functions the body may call."""
     params = [a.arg for a in func_node.args.posonlyargs + func_node.args.args]
     if len(params) != len(args):
         raise Unsupported("arity")
     env = dict(zip(params, args))
+    env["__functions__"] = functions or {}
     try:
         r = run_block(func_node.body, env)
     except Raised as x:
